@@ -60,7 +60,7 @@ def _is_stable_operand(node: ast.AST) -> bool:
     if core.has_side_effect(node, constants.PURE_BUILTIN_FUNCTIONS):
         return False
 
-    if not any(isinstance(child, (ast.Name, ast.Attribute)) for child in ast.walk(node)):
+    if core.is_made_of_literals(node):
         try:
             core.literal_value(node)
         except ValueError:
